@@ -44,6 +44,21 @@ def handle (op : String) (args impl : List String) : Option Out :=
         | some _ =>
           -- a fresh array is zero-filled; a set answers 1
           cmp s!"ab_ndarr.{kind}.ok" ["ok", if kind == "set" || kind == "seti" then f64One else f64Zero] impl)
+  | "ab_ndarrw", [dt, shape, acc, kind, idx] =>
+    some (match parseListOf parseNat shape, parseNat idx with
+      | some sh, some i =>
+        (match flatAccessAs sh (dtypeSize dt) (dtypeSize acc) i with
+        | .err c => cmp s!"ab_ndarrw.{kind}.{c}" ["err", c] impl
+        | _ => cmp s!"ab_ndarrw.{kind}.ok" ["ok", if kind == "seti" then "set" else "got"] impl)
+      | _, _ => .malformed "ab_ndarrw args")
+  -- one reference, one feature: index 0 is answered, every other index is refused with OutOfBounds — through every entry point
+  | "ab_tagidx", [kind, ri, fi] =>
+    some (match parseNat ri, parseNat fi with
+      | some ri, some fi =>
+        let r := if ri == 0 then "ok" else "OutOfBounds"
+        let f := if fi == 0 then "ok" else "OutOfBounds"
+        cmp s!"ab_tagidx.{kind}.{r}.{f}" ("ok" :: (if kind == "T" then [r, r, r, f, f] else [r, r, r, f, f, f])) impl
+      | _, _ => .malformed "ab_tagidx args")
   | "ab_posin", [shape, pos, count] =>
     some (match parseListOf parseNat shape, parseListOf parseNat pos with
       | some sh, some p =>
